@@ -112,6 +112,16 @@ def _raiser(name, cls, msg, log):
 
 
 def evaluate(case):
+    if case[0] == "SEQ":
+        out = Out(cls="sequence")
+        labels = []
+        for step, sub in enumerate(case[1]):
+            o = evaluate(sub)
+            labels.append(o.cls)
+            for sig, detail in o.viols:
+                out.bad(sig, "step %d of a %d-request history over several dispatchers: %s" % (step, len(case[1]), detail))
+        out.cls = "|".join(sorted(set(l for l in labels if l)))[:120]
+        return out
     key, body = case
     w = world(key)
     viols, label, in_domain = ref.evaluate_body(w, body)
@@ -126,6 +136,7 @@ def evaluate(case):
 
 W_DEFAULT = [(2.0, True, "default", None), (1.0, True, "default", None)]
 W_INST = [(2.0, True, "default", "plain"), (1.0, False, "default", "plain")]
+W_OTHER = (2.0, True, "default", "other")
 
 # ---------------------------------------------------------------------------
 # (i) malformed bodies, (ii) structurally invalid objects
@@ -216,14 +227,21 @@ def method_names():
 
 
 def cases_names(tier):
+    """One case = a short history on several dispatchers living in the same process (so that state shared between
+    dispatchers, e.g. a class-level cache, shows): the name on two dispatchers with the full instance, on one
+    without instance, then on a dispatcher whose instance has other attributes, and back."""
     for n in method_names():
         if tier == "quick" and n.count(".") == 2 and n not in EXTRA_NAMES and hash_mod(n) % 3:
             continue
         for params in ([], [1]):
-            for w in W_INST + W_DEFAULT[:1]:
-                yield (w, B.dumps(obj("2.0", 1, n, params)))
-            yield (W_INST[0], B.dumps(obj(ABSENT, 1, n, params)))
-            yield (W_INST[0], B.dumps(obj("2.0", ABSENT, n, params)))
+            seq = [(w, B.dumps(obj("2.0", 1, n, params))) for w in W_INST + W_DEFAULT[:1]]
+            seq.append((W_INST[0], B.dumps(obj(ABSENT, 1, n, params))))
+            seq.append((W_INST[0], B.dumps(obj("2.0", ABSENT, n, params))))
+            seq.append((W_OTHER, B.dumps(obj("2.0", 1, n, params))))
+            seq.append((W_OTHER, B.dumps(obj("2.0", 2, "only_here", params))))
+            seq.append((W_INST[0], B.dumps(obj("2.0", 3, "only_here", params))))
+            seq.append((W_INST[1], B.dumps(obj("2.0", 4, n, params))))
+            yield ("SEQ", tuple(seq))
 
 
 def hash_mod(s):
